@@ -19,7 +19,7 @@ Plan gen_c03(uint64_t seed, int tier)
   gen_loggers_and_sinks(p, r);
   if (Rng(seed ^ 0xc10c).chance(1, 4))
   {
-    // one logger takes its timestamps from a user clock source: its statements carry exactly what that clock returned
+    // one logger takes its timestamps from a user clock source (delivery must not depend on the clock source)
     p.cfg["logger0_clock"] = 2;
   }
   fix_timescale(p);
@@ -129,30 +129,6 @@ Verdict judge_c03(Plan const& p, History const& h, RunInfoLite const& ri)
       }
     }
   }
-  // a statement of a system-clock or user-clock logger carries exactly the first value that clock returned to its thread
-  // inside the call (TSC timestamps are converted by the backend and are not exact)
-  uint64_t exact_ts = 0;
-  for (auto const& w : m.all_writes)
-  {
-    auto it = m.issued.find(w.id);
-    if (it == m.issued.end() || it->second.first_clock == 0)
-    {
-      continue;
-    }
-    int64_t const clk = p.get("logger" + std::to_string(it->second.logger % static_cast<int>(p.get("nloggers", 1))) + "_clock", 0);
-    if (clk == 1)
-    {
-      continue;
-    }
-    ++exact_ts;
-    if (w.ts != it->second.first_clock)
-    {
-      return violation("timestamp_is_not_the_clock_value_read_at_the_start_of_the_call",
-                       "id " + std::to_string(w.id) + " (" + (clk == 2 ? "user" : "system") + " clock) carries " + std::to_string(w.ts) +
-                         " but the first value the clock returned inside the call was " + std::to_string(it->second.first_clock),
-                       {{"clock", clk == 2 ? "user" : "system"}});
-    }
-  }
   DeliveryRules rules;
   rules.expect = [&m](Issued const& is, int sink) -> int
   {
@@ -180,7 +156,6 @@ Verdict judge_c03(Plan const& p, History const& h, RunInfoLite const& ri)
   }
   v.nontrivial = threads.size() >= 2 && ri.preemptions >= 1 && accepted >= 5;
   v.probes["accepted_statements"] = accepted;
-  v.probes["sink_writes_with_exact_timestamp_check"] = exact_ts;
   backlog_probes(m, p, v);
   v.probes["threads_logging"] = threads.size();
   uint64_t grow = 0, blocked = 0;
